@@ -219,7 +219,8 @@ class ArchAutomaton:
             mods = list(args[0]) if isinstance(args[0], list) else [args[0]]
             self.layers[-1] = (self.pending, mods)
             self.assigned.update(mods)
-            self.pending = None
+            if mods:  # an empty list is no module: the layer still has to receive its modules
+                self.pending = None
         elif name == "have_modules_with_names_matching":
             self.layers[-1] = (self.pending, [args[0]])
             self.pending = None
